@@ -25,6 +25,7 @@
  * ops: conn cN hook=accept|hold|refuse [ws=G] [nb=1] | ver|sec|init S|enc E|req|scale K|pf|key|junk|
  *      partial|ft|send HEX|closepeer|resetpeer cN (each: write to the peer socket, then run the event
  *      loop to rest) | appclose|start|refuse cN | kbdclose cN | gonekick cN cM | ext | pump | out cN |
+ *      pw (clients must authenticate from now on) | auth cN ok|bad | ptr cN MASK | ftgo cN | cursor | shutdown0 |
  *      draw SEED (repaint the framebuffer, mark it modified, run the loop) | shutdown | cleanup | end
  */
 #define _GNU_SOURCE
@@ -38,6 +39,8 @@
 #include <sanitizer/lsan_interface.h>
 
 #define MAXC 96
+#define FBW 128
+#define FBH 96
 #define MAXFD 1024
 
 typedef struct {
@@ -198,8 +201,33 @@ static void kbd_hook(rfbBool down, rfbKeySym key, rfbClientPtr cl) {
 }
 static int ft_perm(rfbClientPtr cl) { (void)cl; return TRUE; }
 /* an application-supplied protocol extension that enables itself for every new client */
-static rfbBool ext_new(rfbClientPtr cl, void **data) { (void)cl; *data = NULL; return TRUE; }
-static rfbProtocolExtension harness_ext = { ext_new, NULL, NULL, NULL, NULL, NULL, NULL, NULL, NULL };
+/* with per-client data: allocated in newClient, released by close (the only place an extension can
+   release it); every call of the three hooks is an event */
+typedef struct { int connid; char pad[40]; } ext_data;
+static rfbBool ext_new(rfbClientPtr cl, void **data) {
+  ext_data *d = (ext_data *)calloc(1, sizeof *d);
+  (void)cl;
+  d->connid = pending ? pending->id : -1;
+  *data = d;
+  ev("xnew c%d", d->connid);
+  return TRUE;
+}
+static rfbBool ext_init(rfbClientPtr cl, void *data) {
+  (void)cl;
+  ev("xinit c%d", data ? ((ext_data *)data)->connid : -1);
+  return TRUE;
+}
+static void ext_close(rfbClientPtr cl, void *data) {
+  conn_t *c = (conn_t *)cl->clientData;
+  if (data) { ev("xclose c%d d", ((ext_data *)data)->connid); free(data); }
+  else ev("xclose c%d n", c ? c->id : -1);
+}
+static rfbProtocolExtension harness_ext = { ext_new, ext_init, NULL, NULL, NULL, ext_close, NULL, NULL, NULL };
+/* a second one without data, init or close hook (only its list node has to be released) */
+static rfbBool ext2_new(rfbClientPtr cl, void **data) { (void)cl; *data = NULL; return TRUE; }
+static rfbProtocolExtension harness_ext2 = { ext2_new, NULL, NULL, NULL, NULL, NULL, NULL, NULL, NULL };
+/* VNC authentication with an application-supplied check: the response is right iff it starts with 1 */
+static rfbBool pw_check(rfbClientPtr cl, const char *response, int len) { (void)cl; return len > 0 && response[0] == 1; }
 
 /* ------------------------------------------------------------------ helpers */
 static conn_t *getc_(const char *tok) {
@@ -295,11 +323,11 @@ static void print_state(void) {
       printf("c%d:L1:%s:h%d:%s:g%d:k%d:", c->id, open ? "open" : "closed", me->onHold ? 1 : 0, stname(me), c->gone, c->closes);
       if (open) {
         int t = 0, k; for (k = 0; k < 4; k++) if (me->zsActive[k]) t++;
-        int ne = 0; rfbExtensionData *xd; for (xd = me->extensions; xd; xd = xd->next) ne++;
-        printf("s%dz%dt%dj%dr%db%du%dx%dw%dp%df%de%d", scaled_index(me->scaledScreen), me->compStreamInited ? 1 : 0, t,
+        int ne = 0, nd = 0; rfbExtensionData *xd; for (xd = me->extensions; xd; xd = xd->next) { ne++; if (xd->data) nd++; }
+        printf("s%dz%dt%dj%dr%db%du%dx%dw%dp%df%de%dd%d", scaled_index(me->scaledScreen), me->compStreamInited ? 1 : 0, t,
                me->tightTJ ? 1 : 0, me->zrleData ? 1 : 0, (me->beforeEncBuf ? 1 : 0) + (me->afterEncBuf ? 1 : 0),
                me->compStreamInitedLZO ? 1 : 0, me->translateLookupTable ? 1 : 0, me->wsctx ? 1 : 0,
-               me->wspath ? 1 : 0, me->fileTransfer.fd >= 0 ? 1 : 0, ne);
+               me->wspath ? 1 : 0, me->fileTransfer.fd >= 0 ? 1 : 0, ne, nd);
       } else putchar('-');
     } else printf("c%d:L0:-:-:-:g%d:k%d:-", c->id, c->gone, c->closes);
   }
@@ -310,6 +338,14 @@ static void print_state(void) {
     fputs(" | refs=", stdout);
     for (p = scr, i = 0; p; p = p->scaledScreenNext, i++) printf("%s%d", i ? "," : "", p->scaledScreenRefCount);
     if (unknown) printf(" unknown=%d", unknown);
+    {
+      rfbClientPtr po = scr->pointerClient; int found = 0;
+      for (cl = scr->clientHead; cl; cl = cl->next) if (cl == po) found = 1;
+      if (!po) fputs(" po=-", stdout);
+      else if (!found) fputs(" po=dangling", stdout);      /* never dereferenced */
+      else if (po->clientData) printf(" po=c%d", ((conn_t *)po->clientData)->id);
+      else fputs(" po=?", stdout);
+    }
   } else fputs(" | refs=-", stdout);
   printf(" stray=%d\n", count_stray());
 }
@@ -327,10 +363,12 @@ int main(void) {
   reals();
   devnull = open("/dev/null", O_RDWR);
   signal(SIGPIPE, SIG_IGN);
-  scr = vh_screen(64, 48, 4);
+  scr = vh_screen(FBW, FBH, 4);
   if (!scr) { fprintf(stderr, "no screen\n"); return 2; }
   vh_srand(12);
-  for (i = 0; i < 64 * 48 * 4; i++) scr->frameBuffer[i] = (char)((i / 7) ^ (vh_rand() & 0x0f));
+  /* incompressible content: encoded updates are larger than the server's 32 KiB update buffer, so an
+     update takes several writes and a failure can hit it mid-send */
+  for (i = 0; i < FBW * FBH * 4; i++) scr->frameBuffer[i] = (char)vh_rand();
   scr->newClientHook = new_hook;
   scr->kbdAddEvent = kbd_hook;
   scr->permitFileTransfer = TRUE;
@@ -394,11 +432,25 @@ static void __attribute__((noinline)) run_ops(void) {
       drain(c);
       print_state(); fflush(stdout); continue;
     }
-    if (!strcmp(tok[0], "ext") && n == 1) { rfbRegisterProtocolExtension(&harness_ext); print_state(); fflush(stdout); continue; }
+    if (!strcmp(tok[0], "pw") && n == 1) {        /* from now on new clients must authenticate */
+      scr->authPasswdData = (void *)"x"; scr->passwordCheck = pw_check;
+      print_state(); fflush(stdout); continue;
+    }
+    if (!strcmp(tok[0], "cursor") && n == 1) {    /* a cursor the screen owns (freed by rfbScreenCleanup) */
+      char *src = strdup("xx  " " xx " "  xx" "   x"), *msk = strdup("xx  " "xxx " " xxx" "  xx");
+      rfbCursorPtr cur = rfbMakeXCursor(4, 4, src, msk);
+      free(src); free(msk);
+      cur->cleanup = TRUE; cur->cleanupSource = TRUE; cur->cleanupMask = TRUE;
+      rfbSetCursor(scr, cur);
+      print_state(); fflush(stdout); continue;
+    }
+    if (!strcmp(tok[0], "shutdown0") && n == 1) { rfbShutdownServer(scr, FALSE); print_state(); fflush(stdout); continue; }
+    if (!strcmp(tok[0], "ext") && n == 1) { rfbRegisterProtocolExtension(&harness_ext); rfbRegisterProtocolExtension(&harness_ext2); print_state(); fflush(stdout); continue; }
     if (!strcmp(tok[0], "draw") && n == 2) {   /* the application paints, then the loop runs to rest */
       int seed = atoi(tok[1]), k;
-      for (k = 0; k < 64 * 48 * 4; k++) scr->frameBuffer[k] = (char)((k / 5) * (seed + 3) + (k % 7));
-      rfbMarkRectAsModified(scr, 0, 0, 64, 48);
+      vh_srand((uint64_t)seed * 7919 + 1);
+      for (k = 0; k < FBW * FBH * 4; k++) scr->frameBuffer[k] = (char)vh_rand();
+      rfbMarkRectAsModified(scr, 0, 0, FBW, FBH);
       pump(); print_state(); fflush(stdout); continue;
     }
     if (!strcmp(tok[0], "pump") && n == 1) { pump(); print_state(); fflush(stdout); continue; }
@@ -410,7 +462,16 @@ static void __attribute__((noinline)) run_ops(void) {
     }
     if (n < 2 || !(c = getc_(tok[1]))) { puts("bad-op"); fflush(stdout); continue; }
     if (!strcmp(tok[0], "ver")) { peer_send(c, (const unsigned char *)"RFB 003.008\n", 12); pump(); }
-    else if (!strcmp(tok[0], "sec")) { unsigned char b = 1; peer_send(c, &b, 1); pump(); }
+    else if (!strcmp(tok[0], "sec")) { unsigned char b = scr->authPasswdData ? 2 : 1; peer_send(c, &b, 1); pump(); }
+    else if (!strcmp(tok[0], "auth") && n == 3) {   /* 16-byte response, right iff `ok` */
+      unsigned char m[16]; memset(m, 7, sizeof m); m[0] = !strcmp(tok[2], "ok") ? 1 : 0; peer_send(c, m, 16); pump();
+    }
+    else if (!strcmp(tok[0], "ptr") && n == 3) {    /* PointerEvent, button 1 down / all up */
+      unsigned char m[6] = {5, 0, 0, 10, 0, 10}; m[1] = (unsigned char)atoi(tok[2]); peer_send(c, m, 6); pump();
+    }
+    else if (!strcmp(tok[0], "ftgo")) {             /* FileHeader "ready": the download starts */
+      unsigned char m[12]; memset(m, 0, sizeof m); m[0] = rfbFileTransfer; m[1] = rfbFileHeader; m[7] = 1; peer_send(c, m, 12); pump();
+    }
     else if (!strcmp(tok[0], "init") && n == 3) { unsigned char b = (unsigned char)atoi(tok[2]); peer_send(c, &b, 1); pump(); }
     else if (!strcmp(tok[0], "enc") && n == 3) {
       unsigned char m[8] = {2, 0, 0, 1, 0, 0, 0, 0}; const char *e = tok[2];
@@ -418,7 +479,7 @@ static void __attribute__((noinline)) run_ops(void) {
              !strcmp(e, "zlib") ? 6 : !strcmp(e, "tight") ? 7 : !strcmp(e, "ultra") ? 9 : !strcmp(e, "zrle") ? 16 : 0;
       peer_send(c, m, 8); pump();
     }
-    else if (!strcmp(tok[0], "req")) { unsigned char m[10] = {3, 0, 0, 0, 0, 0, 0, 64, 0, 48}; peer_send(c, m, 10); pump(); }
+    else if (!strcmp(tok[0], "req")) { unsigned char m[10] = {3, 0, 0, 0, 0, 0, 0, FBW, 0, FBH}; peer_send(c, m, 10); pump(); }
     else if (!strcmp(tok[0], "scale") && n == 3) { unsigned char m[4] = {rfbSetScale, 0, 0, 0}; m[1] = (unsigned char)atoi(tok[2]); peer_send(c, m, 4); pump(); }
     else if (!strcmp(tok[0], "pf")) {
       unsigned char m[20] = {0, 0, 0, 0, 8, 8, 0, 1, 0, 7, 0, 7, 0, 3, 0, 3, 6, 0, 0, 0}; peer_send(c, m, 20); pump();
@@ -427,7 +488,13 @@ static void __attribute__((noinline)) run_ops(void) {
     else if (!strcmp(tok[0], "kbdclose")) { c->kbdclose = 1; }
     else if (!strcmp(tok[0], "gonekick") && n == 3) { conn_t *o = getc_(tok[2]); if (!o) { puts("bad-op"); fflush(stdout); continue; } c->gonekick = o->id + 1; }
     else if (!strcmp(tok[0], "junk")) { unsigned char b = 0xEE; peer_send(c, &b, 1); pump(); }
-    else if (!strcmp(tok[0], "partial")) { unsigned char m[2] = {3, 0}; peer_send(c, m, 2); pump(); }
+    else if (!strcmp(tok[0], "partial")) {          /* less than the message the server is waiting for */
+      rfbClientPtr me = NULL, q; for (q = scr->clientHead; q; q = q->next) if (q->clientData == c) me = q;
+      if (c->cl && me && me->state == RFB_AUTHENTICATION) { unsigned char m[8] = {1, 2, 3, 4, 5, 6, 7, 8}; peer_send(c, m, 8); }
+      else if (c->cl && me && me->state == RFB_PROTOCOL_VERSION) peer_send(c, (const unsigned char *)"RFB 0", 5);
+      else { unsigned char m[2] = {3, 0}; peer_send(c, m, 2); }
+      pump();
+    }
     else if (!strcmp(tok[0], "ft")) {
       unsigned char m[12 + 300]; size_t l; char name[280];
       snprintf(name, sizeof name, "C:%s", ftpath); l = strlen(name);
